@@ -33,9 +33,14 @@ def collate (ops : FeatOps Φ) (f : Frame Φ β) (bs : Option Nat) (b : List Nat
   | none, [i] => f.getitem ops (.int i)
   | _, _ => f.getitem ops (.list (b.map Int.ofNat))
 
+/-- the fetcher: every index batch goes through `collate_fn`. -/
+def collateAll (ops : FeatOps Φ) (f : Frame Φ β) (bs : Option Nat) (bss : List (List Nat)) :
+    Option (List (Frame Φ β)) :=
+  mapOpt (collate ops f bs) bss
+
 /-- `list(loader)`: the frames of one epoch; `none` = raises. -/
 def epoch (ops : FeatOps Φ) (f : Frame Φ β) (order : List Nat) (bs : Option Nat) (dropLast : Bool) :
     Option (List (Frame Φ β)) :=
-  (batches order bs dropLast).bind fun bss => mapOpt (collate ops f bs) bss
+  (batches order bs dropLast).bind fun bss => collateAll ops f bs bss
 
 end TFVerif.Loader
